@@ -425,6 +425,28 @@ func (oa *orderAnalysis) checkFunction(f *ssa.Function) (nLoops, nUnordered, nSo
 	p, r := oa.p, oa.r
 	name := funcName(f)
 	loops := findLoops(f)
+	// binary searches presuppose a sorted list: an unordered source must have
+	// been sorted first
+	eachInstr(f, func(ins ssa.Instruction) {
+		c, ok := ins.(*ssa.Call)
+		if !ok || c.Common().StaticCallee() == nil {
+			return
+		}
+		fn := fullName(c.Common().StaticCallee())
+		if !(strings.HasPrefix(fn, "sort.Search") || fn == "sort.Find" || strings.HasPrefix(fn, "slices.BinarySearch")) {
+			return
+		}
+		for _, a := range c.Common().Args {
+			a = unbox(a)
+			if _, isSlice := a.Type().Underlying().(*types.Slice); !isSlice {
+				continue
+			}
+			if w, un := oa.unorderedSource(a, map[ssa.Value]bool{}); un {
+				sorted := oa.sortedBefore(a, c.Block(), c)
+				r.decide(sorted, oa.ruleName(), name+":binary-search:"+p.describe(c), p.pos(c.Pos()), "binary search on a list sorted before", "binary search on "+w+", which is not sorted first: whether a name is found depends on the order of the list")
+			}
+		}
+	})
 	// sorts
 	for _, c := range sortCalls(f) {
 		nSorts++
